@@ -52,6 +52,13 @@ impl<R: Read + Seek> ReadBox<&mut R> for UdtaBox {
         let mut current = reader.stream_position()?;
         let end = start + size;
         while current < end {
+            // Fewer bytes than a box header are left: QuickTime writers end the user data
+            // list with a 32-bit zero. It is not a child box; reading a header here would
+            // run past the end of this box (and of the file, when udta is the last box).
+            if end - current < HEADER_SIZE {
+                break;
+            }
+
             // Get box header.
             let header = BoxHeader::read(reader)?;
             let BoxHeader { name, size: s } = header;
